@@ -843,6 +843,186 @@ def rule_expnt(chk, prog):
                       "(default True) into the flag tested by eval_feat_exp", instance=inst2)
 
 
+def rule_key_order(chk, prog):
+    """sibling rule: inside one settings class, the loops that build per-feature lists by enumerating the keys of one
+    dict attribute all enumerate them in the same order -- all through sorted(...), or all in raw (insertion) order.
+    The key SET is the same on both sides by construction; only the order can differ, and the lists are matched
+    element by element (usps[i] / ueg[i] / normalizer[i] / plan feature i)."""
+    n_cls = 0
+    for m, c in prog.subclasses("BaseSettings"):
+        if m.rel != ST:
+            continue
+
+        def keys_of(e, depth=0):
+            """-> (dict attribute, 'sorted'|'raw') if e enumerates the keys of self.<attr>, else None"""
+            if isinstance(e, ast.Call) and pf.call_name(e) in ("sorted", "list", "tuple", "iter") and len(e.args) == 1:
+                r = keys_of(e.args[0], depth)
+                if r is None:
+                    return None
+                return (r[0], "sorted") if pf.call_name(e) == "sorted" and not any(
+                    k.arg in ("key", "reverse") for k in e.keywords) else (
+                    None if pf.call_name(e) == "sorted" else r)
+            if isinstance(e, ast.Call) and isinstance(e.func, ast.Attribute) and e.func.attr == "keys" and not e.args:
+                return keys_of(e.func.value, depth)
+            if pf.is_self_attr(e):
+                r = prog.find_method(m, c, e.attr)
+                if r is not None and depth < 2:
+                    fn2 = r[2]
+                    if any(isinstance(d, ast.Name) and d.id == "property" for d in fn2.decorator_list):
+                        rets = [x for x in pf.walk_no_nested(fn2) if isinstance(x, ast.Return) and x.value is not None]
+                        body = [x for x in fn2.body if not (isinstance(x, ast.Expr) and isinstance(x.value, ast.Constant))]
+                        if len(rets) == 1 and len(body) == 1:
+                            return keys_of(rets[0].value, depth + 1)
+                    return None
+                return (e.attr, "raw")
+            return None
+
+        def is_dict_attr(attr):
+            for f2 in [x for x in c.body if isinstance(x, ast.FunctionDef)]:
+                for n in pf.walk_no_nested(f2):
+                    if isinstance(n, ast.Subscript) and pf.is_self_attr(n.value, attr):
+                        return True
+                    if isinstance(n, ast.Call) and isinstance(n.func, ast.Attribute) \
+                            and n.func.attr in ("keys", "items", "values") and pf.is_self_attr(n.func.value, attr):
+                        return True
+            return False
+
+        seen = {}
+        for f2 in [x for x in c.body if isinstance(x, ast.FunctionDef)]:
+            for n in pf.walk_no_nested(f2):
+                if not isinstance(n, ast.For):
+                    continue
+                grows = any((isinstance(x, ast.Call) and isinstance(x.func, ast.Attribute)
+                             and x.func.attr in ("append", "extend")) or isinstance(x, (ast.Yield, ast.YieldFrom))
+                            for b in n.body for x in ast.walk(b))
+                if not grows:
+                    continue
+                r = keys_of(n.iter)
+                if r is None or r[0] is None or not is_dict_attr(r[0]):
+                    continue
+                seen.setdefault(r[0], []).append((r[1], f2.name, n))
+        for attr, uses in sorted(seen.items()):
+            meths = sorted({u[1] for u in uses})
+            if len(meths) < 2:
+                continue
+            n_cls += 1
+            kinds = {}
+            for k, fnm, n in uses:
+                kinds.setdefault(k, []).append((fnm, n))
+            inst = "%s: list-building loops over the keys of self.%s use one key order" % (c.name, attr)
+            if len(kinds) == 1:
+                chk.ok("key-order", inst + " (%s; %s)" % (next(iter(kinds)), ", ".join(meths)))
+                continue
+            minority = min(kinds, key=lambda k: len(kinds[k]))
+            majority = [k for k in kinds if k != minority][0]
+            fnm, n = kinds[minority][0]
+            chk.violation("key-order", ST, "%s.%s" % (c.name, fnm), "order of the keys of self.%s" % attr, n.lineno,
+                          "`for ... in %s` enumerates the keys of self.%s in %s order, but %s build(s) the lists it is "
+                          "matched against element by element in %s order: for a dict not written in ascending key order "
+                          "entry i of the two lists belongs to different keys (lengths still agree)"
+                          % (pf.src(n.iter), attr, "insertion" if minority == "raw" else "sorted",
+                             ", ".join(sorted({a for a, _ in kinds[majority]})),
+                             "sorted" if majority == "sorted" else "insertion"), instance=inst)
+    if n_cls == 0:
+        raise core.AnalysisError("key-order: no settings class builds feature lists in two methods from the keys of one dict")
+
+
+def rule_expnt_cutoff(chk, prog):
+    """twin rule: the density threshold with which the large-exponent guard masks its points must be the value
+    that was handed to the exponent function as its clamp (`*cut=` keyword) for the same density array -- points the
+    clamp leaves live must be seen by the guard"""
+    mod = prog.module(PL)
+    cls = mod.cls("NLDFAuxiliaryPlan")
+    fn = mod.func("NLDFAuxiliaryPlan.eval_feat_exp")
+
+    def aliases(func):
+        cnt = {}
+        for n in pf.walk_no_nested(func):
+            if isinstance(n, ast.Assign) and len(n.targets) == 1 and isinstance(n.targets[0], ast.Name):
+                cnt.setdefault(n.targets[0].id, []).append(n.value)
+        return {k: v[0] for k, v in cnt.items() if len(v) == 1}
+
+    def resolve(e, al):
+        for _ in range(4):
+            if isinstance(e, ast.Name) and e.id in al and isinstance(al[e.id], (ast.Name, ast.Attribute)):
+                e = al[e.id]
+            else:
+                break
+        return e
+
+    # clamp side: calls f(X, ..., <name>cut=V) in eval_feat_exp (and self-helpers one level down)
+    funcs = [(fn, None)]
+    for n in pf.walk_no_nested(fn):
+        if isinstance(n, ast.Call) and isinstance(n.func, ast.Attribute) and isinstance(n.func.value, ast.Name) \
+                and n.func.value.id == "self":
+            r = prog.find_method(mod, cls, n.func.attr)
+            if r is not None and r[2] is not fn:
+                funcs.append((r[2], n))
+    clamps = []      # (array name in eval_feat_exp terms, V expr, text of call)
+    for func, site in funcs:
+        al = aliases(func)
+        for n in pf.walk_no_nested(func):
+            if not isinstance(n, ast.Call):
+                continue
+            for k in n.keywords:
+                if k.arg and k.arg.endswith("cut") and k.arg.startswith("rho"):
+                    for a in n.args:
+                        if isinstance(a, ast.Name):
+                            clamps.append((func, a.id, resolve(k.value, al), pf.call_name(n) or pf.src(n.func)))
+    if not clamps:
+        raise core.AnalysisError("expnt-cutoff: eval_feat_exp no longer passes a density cutoff (rho*cut=) to the "
+                                 "exponent function together with the density array")
+    # guard side: comparisons <density array> (>|>=|<|<=) T in the same functions; in a helper the array is the
+    # parameter bound to the density array at the call site
+    n_cmp = 0
+    for func, site in funcs:
+        al = aliases(func)
+        dens = {x for f2, x, _, _ in clamps if f2 is func}
+        if site is not None:
+            params = [a.arg for a in func.args.args][1:]
+            for p_, a in zip(params, site.args):
+                if isinstance(a, ast.Name) and any(f2 is fn and x == a.id for f2, x, _, _ in clamps):
+                    dens.add(p_)
+            for k in site.keywords:
+                if isinstance(k.value, ast.Name) and any(f2 is fn and x == k.value.id for f2, x, _, _ in clamps):
+                    dens.add(k.arg)
+        vals = {}
+        for f2, x, v, cn in clamps:
+            vals.setdefault(pf.src(v), (v, cn))
+        for n in pf.walk_no_nested(func):
+            if not (isinstance(n, ast.Compare) and len(n.ops) == 1
+                    and isinstance(n.ops[0], (ast.Gt, ast.GtE, ast.Lt, ast.LtE))):
+                continue
+            l, r = n.left, n.comparators[0]
+            if isinstance(r, ast.Name) and r.id in dens and not (isinstance(l, ast.Name) and l.id in dens):
+                l, r = r, l
+            if not (isinstance(l, ast.Name) and l.id in dens) or isinstance(r, ast.Constant):
+                continue
+            t = resolve(r, al)
+            n_cmp += 1
+            inst = "NLDFAuxiliaryPlan.%s: mask `%s` uses the cutoff the exponent function clamps with" % (
+                func.name, pf.src(l) + " <cmp> cutoff")
+            bad = [(vs, cn) for vs, (v, cn) in sorted(vals.items()) if vs != pf.src(t)]
+            if not bad:
+                chk.ok("expnt-cutoff", inst)
+                continue
+            if not (isinstance(t, ast.Attribute) and isinstance(t.value, ast.Name) and t.value.id == "self"
+                    and all(isinstance(v, ast.Attribute) and isinstance(v.value, ast.Name) and v.value.id == "self"
+                            for v, _ in vals.values())):
+                raise core.AnalysisError("expnt-cutoff: cannot decide whether `%s` equals the clamp cutoff `%s` (%s)"
+                                         % (pf.src(t), bad[0][0], func.name))
+            chk.violation("expnt-cutoff", PL, "NLDFAuxiliaryPlan." + func.name, "large-exponent guard mask cutoff",
+                          n.lineno,
+                          "the guard masks the exponents with `%s`, but the exponent was clamped by %s(..., rho*cut=%s): "
+                          "expected the same cutoff attribute on both sides. Points whose density lies between the two "
+                          "values are not clamped and not tested, so an exponent beyond max(self.alphas) is returned "
+                          "without the RuntimeError (the two differ by the factor nspin for spin-polarised plans)"
+                          % (pf.src(n), bad[0][1], bad[0][0]), instance=inst)
+    if n_cmp == 0:
+        chk.note("expnt-cutoff", "NLDFAuxiliaryPlan.eval_feat_exp",
+                 "no density-threshold mask found in the guard (every point is tested)")
+
+
 # ----------------------------------------------------------------------------
 # rule 6: shape / contiguity guards.  FROZEN_CALL_GUARDS / FROZEN_FUNC_GUARDS were produced from the pinned tree by
 #         collect_guards() (`C18_DUMP_GUARDS=1 python3 checks/c18.py` prints the current table) and is
@@ -2464,6 +2644,8 @@ def _analyse_own(chk):
     chk.guard(_ffi)
     prog = pf.Program(tree, [ST, PL, FN, XE, NC, LC])
     chk.guard(rule_len, prog)
+    chk.rule("key-order", "list-building loops of one settings class enumerate the keys of a dict attribute in one order")
+    chk.guard(rule_key_order, prog)
     chk.rule("validate", "lists consumed as index pairs / specs / parameter vectors reach a raising validator")
     chk.rule("dispatch", "multi-arm string ladders end in a raise or dispatch on a validated closed set")
     chk.rule("expnt-guard", "eval_feat_exp cannot return normally without the large-exponent test")
@@ -2472,6 +2654,8 @@ def _analyse_own(chk):
     chk.rule("param-guards", "frozen table: constructor / validator parameters are still rejected when invalid")
     chk.guard(rule_param_guards, prog)
     chk.guard(rule_expnt, prog)
+    chk.rule("expnt-cutoff", "the density cutoff masking the large-exponent guard is the one the exponent function clamps with")
+    chk.guard(rule_expnt_cutoff, prog)
     chk.rule("guards", "frozen table: shape / contiguity / dtype guards on every path to the native call or exit")
     if "eng" in box:
         chk.guard(rule_guards, box["eng"], prog)
@@ -2504,6 +2688,8 @@ def _analyse_own(chk):
     chk.floor("param-guards", 15, "half of the guarded-parameter table")
     chk.floor("dispatch", 12, "half of the multi-arm string ladders")
     chk.floor("expnt-guard", 1, "eval_feat_exp")
+    chk.floor("key-order", 1, "SDMXFullSettings._settings: ueg_vector / get_feat_usps / get_reasonable_normalizer")
+    chk.floor("expnt-cutoff", 1, "the guard mask of eval_feat_exp vs the rhocut= of get_cider_exponent[_gga]")
     chk.floor("guards", 287, "half of the 574 frozen guard signatures")
     chk.floor("mirror", 2, "ConvolutionCollection: nalpha, nbeta, has_vj (x flag configurations)")
     chk.floor("noncontig", 150, "half of the array pointer arguments at the ctypes call sites")
@@ -2522,6 +2708,15 @@ def analyse(chk):
     _analyse_own(chk)
     chk.guard(lambda c_: core.include_findings(c_, 'C09', files=['ciderpress/dft/plans.py'], rules=['ctor-roundtrip'],
                                                why='plan.new() must hand the original guard/cutoff arguments to the constructor, otherwise the large-exponent guard of the copy differs'))
+
+
+def _usps_insertion_order(text):
+    i = text.find("    def get_feat_usps(self):\n        usps = []\n        for ratio in self.ratios:")
+    if i < 0:
+        return None
+    j = text.find("        return usps", i)
+    seg = text[i:j].replace("for ratio in self.ratios:", "for ratio in self._settings.keys():")
+    return text[:i] + seg + text[j:]
 
 
 def mutants(tree):
@@ -2648,6 +2843,14 @@ def mutants(tree):
         Mutant("expnt: flag ignores the constructor parameter", PL,
                "            self._raise_large_expnt_error = raise_large_expnt_error",
                "            self._raise_large_expnt_error = False", expect="expnt-guard"),
+        Mutant("key-order: get_feat_usps enumerates the ratios in dict insertion order, its siblings sorted", ST,
+               fn=_usps_insertion_order, expect="key-order"),
+        Mutant("expnt: guard masks with the total-density cutoff, the clamp uses the per-spin one", PL,
+               "            ap = a[rho > self.rhocut]", "            ap = a[rho > self._rhocut_input]", expect="expnt-cutoff"),
+        Mutant("expnt: GGA exponent clamped with the total-density cutoff, the guard masks with the per-spin one", PL,
+               "                grad_mul=grad_mul,\n                rhocut=self.rhocut,\n                nspin=self.nspin,\n            )\n            res = a, (dadn, dadsigma)\n",
+               "                grad_mul=grad_mul,\n                rhocut=self._rhocut_input,\n                nspin=self.nspin,\n            )\n            res = a, (dadn, dadsigma)\n",
+               expect="expnt-cutoff"),
         # ---- guards
         Mutant("guards: delete a contiguity assert before a native call (pwutil)", PW,
                "    assert ylm_lg.flags.c_contiguous\n", "", expect="guards"),
